@@ -23,6 +23,7 @@ structure Ring where
   st : State String := {}
 
 structure St where
+  raw : Bool := false                                   -- cfg rawfilter: the scripted filter ignores the Filter contract
   rings : List (String × Ring) := []
   curShard : String := ""
   cur : List (String × Option Int) := []               -- last tbl row (none = NaN)
@@ -37,28 +38,38 @@ def entry? (t : String) : Option (String × Option Int) :=
 
 def isPerm (a b : List String) : Bool := sortStr a == sortStr b
 
+/-- a shard id is four hex digits: decided from the INPUT token -/
+def shardIsHex (t : String) : Bool := t.length == 4 && t.toList.all (fun c => (hexDigit? c).isSome)
+
 def getRing (s : St) (rid : String) : Option Ring := (s.rings.find? (·.1 = rid)).map (·.2)
 
 def setRing (s : St) (rid : String) (g : Ring) : St :=
   { s with rings := (rid, g) :: s.rings.filter (·.1 ≠ rid) }
 
 /-- one Refresh on the model, following the implementation's enumeration order when admissible -/
-def doRefresh (g : Ring) (members healthy : List String) (impl : List String) : Ring × StepOut :=
+def doRefresh (raw : Bool) (g : Ring) (members scripted : List String) (impl : List String) : Ring × StepOut :=
   let same := setEqual g.st.addrs members
+  -- the scripted filter answers `scripted ∩ (its argument)`; Refresh must hand it the hosts just resolved
+  let healthy := if raw then scripted else scripted.filter (members.contains ·)
   let implOrder : Option (List String) := match impl with
-    | ["nil"] => none
-    | [t] => some (list? t)
+    | "nil" :: _ => none
+    | t :: _ => some (list? t)
     | _ => none
+  let implArg : Option (List String) := (kv? impl "filterarg").map list?
   let order := match implOrder with
     | some o => if isPerm o members then o else members
     | none => members
   let st' := refresh g.st members healthy order
-  let obs := if st'.hashSet then [listTok st'.nodes] else ["nil"]
+  let obs := (if st'.hashSet then [listTok st'.nodes] else ["nil"]) ++ ["filterarg=" ++ listTok (sortStr members)]
   -- impl-side predicate: the ring's node set is exactly the current member set
   let pf := match implOrder with
     | some o => if !isPerm o members && members.eraseDups.length == members.length then
         [s!"side=impl key=ring-membership-mismatch hash nodes {listTok o} after Refresh to members {listTok members}"] else []
     | none => if !members.isEmpty then [s!"side=impl key=ring-membership-mismatch no hash after Refresh to members {listTok members}"] else []
+  let pf := pf ++ (match implArg with
+    | some a => if sortStr a ≠ sortStr members then
+        [s!"side=impl key=filter-arg-not-current Refresh ran the health filter on {listTok (sortStr a)} while the host list resolves to {listTok (sortStr members)}"] else []
+    | none => [])
   ({ g with st := st' }, { obs, branch := if same then "refresh.same" else "refresh.rebuild", propfails := pf })
 
 def scoreOf (tbl : List (String × Option Int)) (a : String) : Int :=
@@ -70,11 +81,11 @@ def step (s : St) (kind : String) (args impl : List String) : Option (St × Step
   match kind, args with
   | "op", ["new", rid, rt, ms, hs] => do
     let r ← rt.toInt?
-    let (g, out) := doRefresh { r := effReplica r } (list? ms) (list? hs) impl
+    let (g, out) := doRefresh s.raw { r := effReplica r } (list? ms) (list? hs) impl
     pure (setRing s rid g, { out with branch := "new." ++ out.branch })
   | "op", ["refresh", rid, ms, hs] => do
     let g ← getRing s rid
-    let (g', out) := doRefresh g (list? ms) (list? hs) impl
+    let (g', out) := doRefresh s.raw g (list? ms) (list? hs) impl
     pure (setRing s rid g', out)
   | "tbl", shard :: entries => do
     let es ← entries.mapM entry?
@@ -87,7 +98,10 @@ def step (s : St) (kind : String) (args impl : List String) : Option (St × Step
     pure (s, { obs := [boolTok (g.st.addrs.contains a)], branch := "contains" })
   | "op", ["loc", rid, shard] => do
     let g ← getRing s rid
-    if shard ≠ s.curShard then none else
+    if shard ≠ s.curShard then
+      -- the tbl row carries Digest.ShardID() of the digest built from this shard prefix
+      let pfs := [s!"side=impl key=shard-id-mismatch ShardID() of a digest starting with {shard} is {s.curShard}"]
+      some (s, { obs := ["ok", "?shard"], branch := "loc.shard-mismatch", propfails := pfs }) else
     let members := g.st.addrs
     let healthy := g.st.healthy
     let r := g.r
@@ -97,7 +111,8 @@ def step (s : St) (kind : String) (args impl : List String) : Option (St × Step
     let sc := scoreOf s.cur
     let tie := hasTie sc members
     let modelOut := ringLocations sc g.st r
-    let inDom := !members.isEmpty && healthy.all (members.contains ·) && r ≥ 1 && !hasNaN
+    -- decided from the inputs only (non-empty duplicate-free member list, healthy ⊆ members, a 4-hex shard)
+    let inDom := !members.isEmpty && healthy.all (members.contains ·) && shardIsHex shard
       && members.eraseDups.length == members.length
     let implLocs : Option (List String) := match impl with
       | ["ok", t] => some (list? t)
@@ -113,6 +128,7 @@ def step (s : St) (kind : String) (args impl : List String) : Option (St × Step
       let gk := s!"{shard}|{listTok (sortStr members)}|{listTok (sortStr healthy)}|{r}"
       let pf : List String :=
         if !inDom then [] else
+        if hasNaN then [s!"side=impl key=nan-score Score({shard}) is NaN for a member of {listTok members}"] else
         (if tie then [s!"side=impl key=score-tie two members of {listTok members} have the same Score({shard})"] else []) ++
         (if o.isEmpty then [s!"side=impl key=empty-locations Locations({shard}) is empty for members {listTok members} healthy {listTok healthy}"] else []) ++
         (if o.any (!members.contains ·) then [s!"side=impl key=non-member Locations({shard}) = {listTok o}, members {listTok members}"] else []) ++
@@ -122,7 +138,7 @@ def step (s : St) (kind : String) (args impl : List String) : Option (St × Step
         (match s.ghost[gk]? with
           | some p => if p ≠ o then [s!"side=impl key=host-order-dependent Locations({shard}) = {listTok o} here, {listTok p} on a ring with the same members/health"] else []
           | none => [])
-      let ghost := if inDom then s.ghost.insert gk o else s.ghost
+      let ghost := if inDom && !hasNaN then s.ghost.insert gk o else s.ghost
       let follow := tie || hasNaN
       let br := if hasNaN then "loc.nan" else if tie then "loc.tie" else
         if !someHealthy then "loc.nohealthy" else
@@ -132,7 +148,7 @@ def step (s : St) (kind : String) (args impl : List String) : Option (St × Step
       pure ({ s with ghost := ghost }, { obs, branch, propfails := pf })
   | _, _ => none
 
-def machine : Machine := { σ := St, name := "ring", init := fun _ => some {}, step := step }
+def machine : Machine := { σ := St, name := "ring", init := fun cfg => some { raw := cfg.contains "rawfilter" }, step := step }
 
 end C21
 
